@@ -399,6 +399,9 @@ switchpos:
 			}
 			return bval / v, nil
 		case token.Rem:
+			if v == 0 {
+				return nil, ErrZeroDivision
+			}
 			return bval % v, nil
 		case token.And:
 			return bval & v, nil
@@ -409,8 +412,14 @@ switchpos:
 		case token.AndNot:
 			return bval &^ v, nil
 		case token.Shl:
+			if v < 0 {
+				return nil, ErrType.NewError("negative shift amount")
+			}
 			return bval << v, nil
 		case token.Shr:
+			if v < 0 {
+				return nil, ErrType.NewError("negative shift amount")
+			}
 			return bval >> v, nil
 		case token.Less:
 			return Bool(bval < v), nil
@@ -436,6 +445,9 @@ switchpos:
 			}
 			return bval / v, nil
 		case token.Rem:
+			if v == 0 {
+				return nil, ErrZeroDivision
+			}
 			return bval % v, nil
 		case token.And:
 			return bval & v, nil
